@@ -54,6 +54,7 @@ func genStateImpl(repo string, root *pkg) {
 		rel, name string
 		p         *pkg
 	}{{"", "libaudit", root}, {"auparse", "auparse", nil}, {"aucoalesce", "aucoalesce", nil}, {"rule", "rule", nil}, {"rule/flags", "flags", nil}}
+	envReads := map[string]bool{}
 	for pi, pk := range pkgs {
 		p := pk.p
 		if p == nil {
@@ -62,6 +63,45 @@ func genStateImpl(repo string, root *pkg) {
 		}
 		if p.tpkg == nil {
 			fatal("package %s did not type-check", pk.rel)
+		}
+		// what the package reads of the process environment: calls of package-level functions of os, os/user, os/exec,
+		// net, runtime, math/rand, crypto/rand, of time.Now / Since / Until, of filepath functions that look at the file
+		// system, and of syscall functions that ask about the process (in non-test files, wherever they occur)
+		for _, f := range p.files {
+			if strings.HasSuffix(p.fset.Position(f.Pos()).Filename, "_test.go") {
+				continue
+			}
+			ast.Inspect(f, func(n ast.Node) bool {
+				call, ok := n.(*ast.CallExpr)
+				if !ok {
+					return true
+				}
+				fn := calleeOf(p, call)
+				if fn == nil || fn.Pkg() == nil {
+					return true
+				}
+				if sig, ok := fn.Type().(*types.Signature); ok && sig.Recv() != nil {
+					return true
+				}
+				pp, name := fn.Pkg().Path(), fn.Name()
+				env := false
+				switch pp {
+				case "os", "os/user", "os/exec", "net", "runtime", "math/rand", "math/rand/v2", "crypto/rand", "io/ioutil":
+					env = !(pp == "os" && (name == "NewSyscallError" || name == "IsNotExist" || name == "IsExist" || name == "IsPermission")) &&
+						!(pp == "runtime" && (name == "KeepAlive" || name == "SetFinalizer")) &&
+						!(pp == "net" && (name == "JoinHostPort" || name == "ParseIP" || name == "IPv4" || name == "SplitHostPort"))
+				case "time":
+					env = name == "Now" || name == "Since" || name == "Until"
+				case "path/filepath":
+					env = name == "Glob" || name == "Walk" || name == "WalkDir" || name == "Abs" || name == "EvalSymlinks"
+				case "syscall", "golang.org/x/sys/unix":
+					env = strings.HasPrefix(name, "Get") && name != "GetsockoptInt" && name != "Getsockname" && name != "Getsockopt"
+				}
+				if env {
+					envReads[pk.rel+"\x00"+pp+"."+name] = true
+				}
+				return true
+			})
 		}
 		scope := p.tpkg.Scope()
 		pkgVar := func(e ast.Expr) *types.Var {
@@ -281,6 +321,21 @@ func genStateImpl(repo string, root *pkg) {
 		fmt.Fprintf(&b, "\n  (%q, %q, %q, %q, %q)", f.pkg, f.file, f.fn, f.kind, f.target)
 		prev = f
 		n++
+	}
+	b.WriteString("]\n")
+	b.WriteString("/-- (package, callee): what each package reads of the process environment; see harness/cmd/extract/state.go -/\n")
+	b.WriteString("def envReads : List (String × String) := [")
+	var ers []string
+	for k := range envReads {
+		ers = append(ers, k)
+	}
+	sort.Strings(ers)
+	for i, k := range ers {
+		if i > 0 {
+			b.WriteString(",")
+		}
+		kv := strings.SplitN(k, "\x00", 2)
+		fmt.Fprintf(&b, "\n  (%q, %q)", kv[0], kv[1])
 	}
 	b.WriteString("]\n")
 	b.WriteString("end LA.Gen.State\n")
